@@ -261,3 +261,46 @@ Example ex_batch_x2_only :
 Proof. exact ex_bshapes_x2_only. Qed.
 Example ex_batch_mixed : bshapes [[1%Z]; [3%Z; 1%Z]; [2%Z]] = Some [3%Z; 2%Z].
 Proof. exact ex_bshapes_mixed. Qed.
+
+(* ======================================================================================== *)
+(* (i') soundness of the model of torch's index semantics itself (Proofs/C06_index_sound.v)   *)
+From GPV Require Import Proofs.C06_index_sound.
+
+(* for EVERY shape (dimensions >= 0, zero-size dimensions included) and EVERY index tuple the model
+   accepts - ints incl. negative, slices with any start / stop / step under Python semantics (None,
+   negative, out-of-range bounds; torch rejects steps <= 0 and so does the model), 1-D index tensors with
+   negative / repeated entries incl. their broadcast and the "separated advanced indices go first" rule,
+   Ellipsis, omitted trailing dimensions - every flat source position the model returns lies inside the
+   flattened source, and the number of positions is the product of the result shape the model reports
+   (None / newaxis is not modelled) *)
+Theorem c06_index_model_sound : forall (dims : list Z) (idx : list pyidx_e) (shape pos : list Z),
+  Forall (fun d => (0 <= d)%Z) dims -> index_model dims idx = Some (shape, pos) ->
+  Forall (fun p => (0 <= p < numel dims)%Z) pos /\ Z.of_nat (List.length pos) = numel shape.
+Proof. exact Proofs.C06_index_sound.index_model_sound. Qed.
+Print Assumptions c06_index_model_sound.
+
+(* pure basic indexing (ints and slices only, Ellipsis allowed): no source entry is selected twice *)
+Theorem c06_index_model_basic_injective : forall (dims : list Z) (idx : list pyidx_e) (shape pos : list Z),
+  Forall (fun d => (0 <= d)%Z) dims ->
+  (forall x, In (EI x) idx -> Models.C11_mtmvn.is_int x || Models.C11_mtmvn.is_slice x = true) ->
+  index_model dims idx = Some (shape, pos) -> NoDup pos.
+Proof. exact Proofs.C06_index_sound.index_model_basic_injective. Qed.
+Print Assumptions c06_index_model_basic_injective.
+
+(* ... and this needs the restriction: an index tensor may select an entry twice *)
+Theorem c06_index_model_tensor_injective_refuted :
+  exists dims idx shape pos, Forall (fun d => (0 <= d)%Z) dims /\
+    index_model dims idx = Some (shape, pos) /\ ~ NoDup pos.
+Proof. exact Proofs.C06_index_sound.index_model_tensor_not_injective. Qed.
+Print Assumptions c06_index_model_tensor_injective_refuted.
+
+(* non-vacuity: negative int + stepped slice with negative start + Ellipsis; broadcast index tensors
+   separated by a slice (the advanced dimension moves to the front) *)
+Example ex_c06_index_model_basic :
+  (index_model [3; 4; 5] [EI (ISlice (mk (Some (-3)) None (Some 2))); EE; EI (IInt (-2))]
+   = Some ([2; 4], [3; 8; 13; 18; 43; 48; 53; 58]))%Z.
+Proof. exact Proofs.C06_index_sound.ex_index_model_basic. Qed.
+Example ex_c06_index_model_advanced :
+  (index_model [3; 4; 5] [EI (ITensor [0; -1]); EI (ISlice (mk (Some 1) (Some 3) None)); EI (ITensor [2])]
+   = Some ([2; 2], [7; 12; 47; 52]))%Z.
+Proof. exact Proofs.C06_index_sound.ex_index_model_advanced. Qed.
